@@ -26,6 +26,7 @@
 #include <set>
 #include <string>
 #include <thread>
+#include <type_traits>
 #include <vector>
 #include <unistd.h>
 
@@ -220,6 +221,65 @@ static int mode_async(int reps)
     for (int i = reps - 1; i >= 0; --i)
       ok += futs[i].get() == Mk<std::string>::make(i);
     printf("ASYNC type=string-outstanding reps=%d ok=%d bad=%d firstbad=- fcn_calls=%d\n", reps, ok, reps - ok, reps);
+  }
+  // an LVALUE functor (TASK_T deduced as F&: the packaged_task copies it), a void-returning function, and schedule() of an lvalue functor
+  {
+    struct Counting
+    {
+      std::atomic<int> *calls;
+      int tag;
+      int operator()() const { (*calls)++; return tag * 3; }
+    };
+    struct CountingVoid
+    {
+      std::atomic<int> *calls;
+      void operator()() const { (*calls)++; }
+    };
+    static std::atomic<int> cc[3];   // static: a late task must not touch freed memory, and nothing leaks
+    std::atomic<int> *c1 = &cc[0], *c2 = &cc[1], *c3 = &cc[2];
+    int ok = 0;
+    for (int i = 0; i < reps; ++i) {
+      Counting f{c1, i};
+      auto fut = async(f);                   // lvalue
+      ok += fut.get() == i * 3 && f.tag == i;
+    }
+    printf("ASYNC type=lvalue-functor reps=%d ok=%d bad=%d firstbad=- fcn_calls=%d\n", reps, ok, reps - ok, c1->load());
+    int okv = 0;
+    for (int i = 0; i < reps; ++i) {
+      int before = c2->load();
+      std::future<void> fv = async([c2]() { (*c2)++; });
+      fv.get();
+      okv += c2->load() == before + 1;
+    }
+    printf("ASYNC type=void-result reps=%d ok=%d bad=%d firstbad=- fcn_calls=%d\n", reps, okv, reps - okv, c2->load());
+    for (int i = 0; i < reps; ++i) {
+      CountingVoid g{c3};
+      schedule(g);                           // lvalue functor: copied into the task
+    }
+    auto t0 = clk::now();
+    while (c3->load() < reps && ms_since(t0) < 5000) sleep_ms(1);
+    sleep_ms(20);
+    // std::function objects (lvalue and rvalue) handed to schedule() and async()
+    {
+      static std::atomic<int> sf[3];
+      for (int i = 0; i < reps; ++i) {
+        std::function<void()> f1 = []() { sf[0]++; };
+        schedule(f1);
+        std::function<void()> f2 = []() { sf[1]++; };
+        schedule(std::move(f2));
+        std::function<int()> f3 = [i]() { sf[2]++; return i; };
+        auto fut = async(std::move(f3));
+        if (fut.get() != i) sf[2] += 1000;
+      }
+      auto t1 = clk::now();
+      while ((sf[0].load() < reps || sf[1].load() < reps) && ms_since(t1) < 5000) sleep_ms(1);
+      sleep_ms(20);
+      bool good = sf[0].load() == reps && sf[1].load() == reps && sf[2].load() == reps;
+      printf("ASYNC type=std-function-lvalue/rvalue reps=%d ok=%d bad=%d firstbad=%d/%d/%d fcn_calls=%d\n", reps, good ? reps : 0, good ? 0 : reps,
+          sf[0].load(), sf[1].load(), sf[2].load(), good ? reps : -1);
+    }
+    printf("ASYNC type=schedule-lvalue-functor reps=%d ok=%d bad=%d firstbad=- fcn_calls=%d\n", reps, c3->load() == reps ? reps : 0,
+        c3->load() == reps ? 0 : reps, c3->load());
   }
   fflush(stdout);
   return 0;
@@ -808,6 +868,14 @@ int main(int argc, char **argv)
   if (argc < 2) return 2;
   std::string m = argv[1];
   int n = argc > 2 ? atoi(argv[2]) : 1;
+  if (m == "traits") {
+    typedef AsyncTask<int> A;
+    typedef rkcommon::tasking::detail::AsyncTaskImpl<std::function<void()>> I;
+    printf("TRAITS copy_constructible=%d copy_assignable=%d move_constructible=%d move_assignable=%d impl_copy_constructible=%d polymorphic=%d\n",
+        (int)std::is_copy_constructible<A>::value, (int)std::is_copy_assignable<A>::value, (int)std::is_move_constructible<A>::value,
+        (int)std::is_move_assignable<A>::value, (int)std::is_copy_constructible<I>::value, (int)std::is_polymorphic<A>::value);
+    return 0;
+  }
   if (m == "onethread") return mode_onethread();
   if (m == "teardown") return mode_teardown(argc, argv);
   if (m == "steal") return mode_steal(n, argc > 3 ? atoi(argv[3]) : 30);
